@@ -274,7 +274,11 @@ func (g *exGen) Gen(kind string, d int) *Ex {
 		k := &Ex{K: "lit", Op: "int", Text: strconv.FormatInt(g.env.K, 10), Val: g.env.K}
 		call := func(name string, args ...*Ex) *Ex { return &Ex{K: "call", A: &Ex{K: "name", Text: name}, Args: args} }
 		if g.r.Chance(12) {
-			switch g.r.Intn(4) {
+			switch g.r.Intn(6) {
+			case 4:
+				return call("two") // (int64, int64): the second result is not an error
+			case 5:
+				return call("none") // no result at all
 			case 0:
 				return call("fail")
 			case 1:
